@@ -9,7 +9,7 @@ From IV Require Import Base.Word Model.RtpBuffer Model.PacketFactory Model.Respo
 From Coq Require Import ZifyBool.
 Ltac Zify.zify_post_hook ::= Z.div_mod_to_equations.
 
-Definition ah := ahist rp.
+Notation ah := (ahist rp).
 
 Definition stored (s : rstate) (hd : handle) (h : hdr) (pay : list Z) : np_res :=
   fst (if rs_copy s then new_packet (rs_seqr s) h pay (si_rtxssrc (hd_info hd)) (si_rtxpt (hd_info hd))
